@@ -13,7 +13,7 @@ from .. import monitor
 from ..common import rng_for, close
 
 LEVEL = "exploration"
-TECHNIQUE = "runtime monitors on window/helper functions with closed-form and high-precision (mpmath) reference oracles; exhaustive over window widths"
+TECHNIQUE = "runtime monitors on window/helper functions with closed-form and high-precision (mpmath) reference oracles; exhaustive over window widths; ambient-settings monitor (stateless calls repeated under -W error and np.errstate raise)"
 RULE = (
     "windows: every width in 0..600 (quick) / 0..4096 (thorough) for the four NumPy-based windows (exhaustive), random (order, peak, width) "
     "for GammaWindow; circshift_fourier: random (dft_size incl. None, segment, start_idx incl. wrap-around, integer shift in [-3D,3D], copy, dtype); "
